@@ -23,6 +23,8 @@ def gen(rng):
             ops.append(("add", rng.choice(keys)))
         elif r < 0.85:
             ops.append(("reopen", rng.choice(["abs-other-cwd", "rel", "abs"])))
+        elif r < 0.92:
+            ops.append(("clear",))
         else:
             ops.append(("export",))
     return {"est": est, "fpr": rng.choice([0.3, 0.1, 0.05, 0.01]), "where": rng.choice(["rel", "sub", "abs"]), "ops": ops}
@@ -82,6 +84,18 @@ def check(case):
                         return bad
                     if obj.elements_added != len(done):
                         return f"step {step}: elements_added {obj.elements_added} != {len(done)}"
+                elif op[0] == "clear":
+                    # a history may clear: afterwards the file is the export of the empty filter with the
+                    # ORIGINAL parameters, and every later state is the export of the additions since
+                    res = core.call(obj.clear)
+                    if res[0] == "err":
+                        return f"step {step}: clear raised {res[1]}"
+                    done = []
+                    mem.clear()
+                    with open(path, "rb") as fh:
+                        bad = _wellformed(fh.read(), case["est"], case["fpr"], done, {0}, f"step {step} after clear")
+                    if bad:
+                        return bad
                 elif op[0] == "export":
                     dst = os.path.join(tmp, "other", "copy.blm")
                     os.chdir(os.path.join(tmp, "other"))
